@@ -140,3 +140,14 @@ func WellFormedEncrypted(f *File, s *Section) error {
 	}
 	return nil
 }
+
+// EncryptedFileFromSection wraps an arbitrary (possibly inconsistent) plaintext private
+// section, which must already be padded to a multiple of 16, into a passphrase protected
+// container stating the outer public key pub.
+func EncryptedFileFromSection(pub, section []byte, cipher string, passphrase, salt []byte, rounds uint32) (*File, error) {
+	enc, err := crypt(cipher, passphrase, salt, rounds, section, false)
+	if err != nil {
+		return nil, err
+	}
+	return &File{Cipher: cipher, KDF: "bcrypt", KDFOpts: KDFOptions(salt, rounds), NKeys: 1, PubBlobs: [][]byte{pub}, Priv: enc}, nil
+}
